@@ -616,6 +616,24 @@ func runChild(script, dir string, seed int64, prm []int) {
 		e.sync()
 		e.upload()
 		e.restore(e.lastRemote)
+	case "ckpttrunc":
+		// TRUNCATE checkpoints: each ends in the boundary snapshot written under SQLite's write lock
+		// (DB.sync from checkpointWithExecutor) — a level-0 file published on that path must be flushed
+		// before it is renamed like any other (seed C11e)
+		for i := 0; i < rounds; i++ {
+			round()
+			must(e.db.Checkpoint(e.ctx, litestream.CheckpointModeTruncate), "checkpoint")
+			pos, err := e.db.Pos()
+			must(err, "pos")
+			for t := e.lastLocal + 1; t <= pos.TXID; t++ {
+				e.ackf("l0", t, "-", e.db.LTXPath(0, t, t))
+			}
+			e.lastLocal = pos.TXID
+		}
+		e.write(2, 100)
+		e.sync()
+		e.upload()
+		e.restore(e.lastRemote)
 	case "follow":
 		round()
 		e.upload()
